@@ -105,13 +105,24 @@ def harness_build(profile="tie", serde=True, target_dir=None):
         target_dir = os.path.join(hd, os.path.basename(target_dir))
     td = target_dir or os.path.join(hd, "target")
     env = {"RUSTFLAGS": RUSTFLAGS, "CARGO_NET_OFFLINE": "true", "CARGO_TARGET_DIR": td}
+    # a fresh target directory re-runs cargo's `rustc -` target probe; under many concurrent cold builds that probe has
+    # been seen to read another process's diagnostics from stdin.  Seed the probe cache from the main harness build.
+    cache = os.path.join(td, ".rustc_info.json")
+    main_cache = os.path.join(HARNESS, "target", ".rustc_info.json")
+    if not os.path.exists(cache) and os.path.exists(main_cache):
+        os.makedirs(td, exist_ok=True)
+        try:
+            import shutil
+            shutil.copy(main_cache, cache)
+        except OSError:
+            pass
     with Lock(".lock-cargo-" + hashlib.md5(td.encode()).hexdigest()[:8]):
         for attempt in range(3):
             rc, out, err = sh(cmd, cwd=hd, env=env, timeout=3600)
             if rc == 0:
                 break
             try:
-                open(os.path.join(OUT, f"cargo-fail-{os.getpid()}-{attempt}.log"), "w").write(out + err)
+                open(f"/tmp/cargo-fail-{os.getpid()}-{attempt}.log", "w").write(out + err)
             except OSError:
                 pass
             # build scripts of dependencies occasionally fail spuriously when several cargo builds run at once
